@@ -139,16 +139,17 @@ static void c3_case(uint64_t idx, void *vctx)
         pixman_image_t *src = pixman_image_create_bits(PIXMAN_a8r8g8b8, W, H, spix, 64 * 4);
         pixman_image_set_repeat(src, PIXMAN_REPEAT_NORMAL);
         clip_apply(src, &sclip);
-        pixman_image_set_source_clipping(src, SOPT[so].clip_sources);
-        pixman_image_set_has_client_clip(src, SOPT[so].client_clip);
+        /* "true" is any non-zero int (ph_truthy): 1 is not the only value a caller may pass */
+        pixman_image_set_source_clipping(src, SOPT[so].clip_sources ? ph_truthy((uint64_t)so + (uint64_t)fi + 1) : 0);
+        pixman_image_set_has_client_clip(src, SOPT[so].client_clip ? ph_truthy((uint64_t)so + (uint64_t)dclip_k) : 0);
         pixman_image_t *msk = NULL;
         if (mo >= 0) {
             pixman_color_t opaque_white = { 0xffff, 0xffff, 0xffff, 0xffff };
             msk = mkind == 0 ? pixman_image_create_bits(PIXMAN_a8, W, H, mpix, 64) : mkind == 1 ? pixman_image_create_bits(PIXMAN_x8r8g8b8, W, H, spix_x8, 64 * 4) : pixman_image_create_solid_fill(&opaque_white);
             pixman_image_set_repeat(msk, PIXMAN_REPEAT_NORMAL);
             clip_apply(msk, &mclip);
-            pixman_image_set_source_clipping(msk, SOPT[mo].clip_sources);
-            pixman_image_set_has_client_clip(msk, SOPT[mo].client_clip);
+            pixman_image_set_source_clipping(msk, SOPT[mo].clip_sources ? ph_truthy((uint64_t)mo + (uint64_t)ai + 3) : 0);
+            pixman_image_set_has_client_clip(msk, SOPT[mo].client_clip ? ph_truthy((uint64_t)mo + (uint64_t)sz + 1) : 0);
         }
         gbuf_t g = gb_make(bpp, W, H, fill), ga = gb_make(8, AW, AH, fill);
         pixman_image_t *dst = pixman_image_create_bits(fmt, W, H, (uint32_t *)g.pix, g.stride);
